@@ -274,6 +274,7 @@ inductive Frame where
   | forPostK (c p b : Val)
   | iterK (f : Val) (todo : List (List Val))       -- ForSlice / MapIter: remaining argument lists for f
   | discardK (v : Val)                             -- return v after the current evaluation
+  | sliceIterK (f : Val) (s : Val) (i n : Nat)     -- ForSlice: element i is read when iteration i starts; n = length at loop start
   | acquireK (lockObj : Nat)                       -- second half of condWait
   | wakeK (condObj : Nat) (id : Nat)               -- strict semantics: parked until a signal/broadcast names this waiter
   deriving Inhabited, Repr
@@ -401,6 +402,7 @@ def runBuiltin (p : Prog) (w : World) (f : String) (args : List Val) (k : List F
   | "SliceAppend", [_, s, x] | "SliceAppendSlice", [_, s, x] =>
     match sliceParts s, sliceElems w s, (if f == "SliceAppend" then some [x] else sliceElems w x) with
     | some (o, off, l, c), some old, some extra =>
+      if extra.isEmpty then ret s w else      -- appending nothing (also to a nil slice) returns the slice itself
       if l + extra.length ≤ c then
         -- in place, into the shared backing array
         match w.heap[o]? with
@@ -765,8 +767,17 @@ def step (p : Prog) (w : World) (t : Thread) : StepOut :=
       | .discardK x =>
         -- used by ForSlice: `v` is the evaluated slice, `x` the loop-body closure
         match sliceElems w v with
-        | some vs => go (.ret .unit) (.iterK x ((vs.zipIdx).map (fun (e, i) => [.u64 i, e])) :: k)
+        | some vs => go (.ret .unit) (.sliceIterK x v 0 vs.length :: k)
         | none => .stuck "ForSlice over a non-slice"
+      | .sliceIterK f sl i n =>
+        if i < n then
+          match sliceElems w sl with
+          | some vs =>
+            match vs[i]? with
+            | some e => go (.apply f [.u64 i, e]) (.sliceIterK f sl (i + 1) n :: k)
+            | none => .stuck "ForSlice: element out of range"
+          | none => .stuck "ForSlice over a non-slice"
+        else go (.ret .unit) k
       | .wakeK c id =>
         match w.heap[c]? with
         | some (.cond l wt wk) =>
